@@ -318,6 +318,22 @@ def readVecs (K : Type) [Wire K] [Scalar K] (n d : Nat) : P (List (Vec K d)) := 
   let a ← arr K (n * d)
   return (List.range n).map fun r => (fun j : Fin d => a.getD (r * d + j.val) 0)
 
+/-- C14: the accept/shrink loop of `_fit_full` run on the implementation's own per-cycle observables
+(`satisfy`, objective at `A_old`, objective at the projected iterate); iterates are named by numbers:
+`2c` enters cycle `c`, `2c+1` is its projection.  Returns which iterate `A_old` is after every cycle. -/
+def opMmcLoop : P String := do
+  let n ← nat
+  let rows ← arr Float (3 * n)
+  finish
+  let sat : Nat → Bool := fun c => rows.getD (3 * c) 0.0 != 0.0
+  let objPrev0 := rows.getD 1 0.0
+  let objAt : Nat → Float := fun a => if a % 2 == 1 then rows.getD (3 * ((a - 1) / 2) + 2) 0.0 else objPrev0
+  let project : Nat → Nat × Bool := fun a => (a + 1, sat (a / 2))
+  let step : Nat → Nat → Float → Nat → Nat := fun c _ _ _ => 2 * (c + 1)
+  let s0 : MmcState Nat Float := { A := 0, Aold := 0, alpha := 0.1, M := 0 }
+  let olds := (List.range n).map fun k => (mmcCycles project objAt (fun a => a) step (k + 1) 0 s0).Aold
+  return "ok " ++ " ".intercalate (olds.map toString)
+
 /-- C14 ops (Float twin of MMC's helper functions) -/
 def opMmc (op : String) : P String := do
   let d ← nat
@@ -469,6 +485,7 @@ def dispatch : P String := do
   | "lsml_eval" => opLsml
   | "scml_replay" => opScml
   | "mmc_budget" | "mmc_fd" | "mmc_gradproj" | "mmc_halfspace" | "mmc_psdproj" | "mmc_dobj" => opMmc op
+  | "mmc_loop" => opMmcLoop
   | "itml_run" => opItml
   | "cov" | "rca_inner" | "lfda_scatter" => opClosedForm op
   | "wiring" => opWiring
